@@ -734,7 +734,8 @@ def r14k(ctx, rep, rule="R14k"):
             continue
         n += 1
         bad = [t for bb, t in f.calls() if callee(t) == pre + "eqv"]
-        uses_equal = any(callee(t) == pre + "equal" for bb, t in f.calls())
+        EQUAL = (pre + "equal", pre + "equal_seen")
+        uses_equal = any(callee(t) in EQUAL for bb, t in f.calls())
         key = "%s|%s" % (rule, nm)
         if bad:
             rep.fail(rule, key, "%s compares a component with eqv instead of equal: a vector or string reached there is compared by "
@@ -747,7 +748,7 @@ def r14k(ctx, rep, rule="R14k"):
         body = set()
         for src, h in f.back_edges():
             body |= (f.reach_from(h) & f.reach_back(src)) | {h, src}
-        eq_blocks = [bb for bb, t in f.calls() if callee(t) == pre + "equal" and bb in body]
+        eq_blocks = [bb for bb, t in f.calls() if callee(t) in EQUAL and bb in body]
         k = 0
         for bb, j_, st in f.stmts():
             rv = st["rv"]
